@@ -103,7 +103,12 @@ class one3d(PseudoNetCDFFile):
         time_date = array(self.__memmap.reshape(
             self.__records, self.__record_items)[:, 1:3])
 
-        lays = where(time_date != time_date[newaxis, 0])[0][0]
+        newtime = where(time_date != time_date[newaxis, 0])[0]
+        if newtime.size > 0:
+            lays = newtime[0]
+        else:
+            # a single time step: every record is a layer of it
+            lays = self.__records
 
         new_hour = slice(0, None, lays)
 
